@@ -196,6 +196,29 @@ def run_api(case, ctx):
     if not raised:
       ctx.violation("fault_swallowed", "%s: write() returned normally although evaluation %d failed (%d bytes written)" % (t, k, rfk.nbytes), what="fault_swallowed", target=t)
       return
+    # a second write() on the SAME object after the failed one (the fault does not fire again): the object must
+    # not have kept half-built state - it emits the whole table, or nothing together with an exception
+    if raised and k % 3 == 0:
+      rf2 = monitors.RecordingFile(log2, binary=binary)
+      try:
+        wk(rf2)
+        again = rf2.getvalue()
+        same = again == plain
+        if binary and not same:
+          import readers
+          try:
+            same = readers.read_xlsx(again)["sheets"] == readers.read_xlsx(plain)["sheets"]
+          except Exception:
+            same = False
+        ctx.count("retries_after_fault")
+        if not same:
+          ctx.violation("partial_table_on_retry", "%s: after evaluation %d of %d failed, calling write() again on the same object emitted %d bytes that are not the table (%d bytes): state of the failed attempt was kept" % (
+            t, k, total, len(again), len(plain)), what="partial_table_on_retry", target=t)
+          return
+      except Exception:
+        if rf2.nbytes != 0:
+          ctx.violation("partial_table_on_retry", "%s: retry after a fault raised again but had written %d bytes" % (t, rf2.nbytes), what="partial_table_on_retry", target=t)
+          return
     if rfk.nbytes != 0:
       whole = rfk.getvalue() == plain
       ctx.violation("partial_table", "%s: evaluation %d of %d failed and %d bytes %s had already been written" % (
